@@ -350,6 +350,20 @@ func (g *genCtx) gen(t *rapid.T, depth int) *Schema {
 				}
 			}
 			b.Props = bp
+			// one member requires a property that only the OTHER member declares (as an optional one)
+			cross := func(from, to *Schema, label string) {
+				var opt []string
+				for _, p := range to.Props {
+					if !p.Required {
+						opt = append(opt, p.Name)
+					}
+				}
+				if len(opt) > 0 && rapid.IntRange(0, 2).Draw(t, label) == 0 {
+					from.ExtraRequired = []string{rapid.SampledFrom(opt).Draw(t, label+"-name")}
+				}
+			}
+			cross(a, b, "crossreq-ab")
+			cross(b, a, "crossreq-ba")
 			s = &Schema{AllOf: []*Schema{a, b}}
 		default:
 			s = g.genLeaf(t)
